@@ -2,6 +2,21 @@ import BlockCiphers.Api
 import BlockCiphers.Models.Xtea
 import BlockCiphers.Models.Rc5
 import BlockCiphers.Models.Speck
+import BlockCiphers.Models.Aes
+import BlockCiphers.Models.Idea
+import BlockCiphers.Models.Twofish
+import BlockCiphers.Models.Belt
+import BlockCiphers.Models.Magma
+import BlockCiphers.Models.Sm4
+import BlockCiphers.Models.Aria
+import BlockCiphers.Models.Camellia
+import BlockCiphers.Models.Cast5
+import BlockCiphers.Models.Blowfish
+import BlockCiphers.Models.Rc2
+import BlockCiphers.Models.Threefish
+import BlockCiphers.Models.Des
+import BlockCiphers.Models.Cast6
+import BlockCiphers.Models.Serpent
 /-
 All cipher models known to the driver.  One `Models/<Cipher>.lean` per crate contributes `models`
 (generic registry entries) and `specials` (operation lines that are specific to the crate).
@@ -9,10 +24,14 @@ All cipher models known to the driver.  One `Models/<Cipher>.lean` per crate con
 namespace BC
 
 def allCiphers : List CipherModel :=
-  Models.Xtea.models ++ Models.Rc5.models ++ Models.Speck.models
+  Models.Xtea.models ++ Models.Rc5.models ++ Models.Speck.models ++
+  Models.Serpent.models ++ Models.Cast6.models ++ Models.Des.models ++ Models.Threefish.models ++ Models.Rc2.models ++ Models.Blowfish.models ++ Models.Cast5.models ++
+  Models.Camellia.models ++ Models.Aria.models ++ Models.Sm4.models ++ Models.Magma.models ++ Models.Belt.models ++ Models.Twofish.models ++ Models.Idea.models ++ Models.Aes.models
 
 def allSpecials : List Special :=
-  Models.Xtea.specials ++ Models.Rc5.specials ++ Models.Speck.specials
+  Models.Xtea.specials ++ Models.Rc5.specials ++ Models.Speck.specials ++
+  Models.Serpent.specials ++ Models.Cast6.specials ++ Models.Des.specials ++ Models.Threefish.specials ++ Models.Rc2.specials ++ Models.Blowfish.specials ++ Models.Cast5.specials ++
+  Models.Camellia.specials ++ Models.Aria.specials ++ Models.Sm4.specials ++ Models.Magma.specials ++ Models.Belt.specials ++ Models.Twofish.specials ++ Models.Idea.specials ++ Models.Aes.specials
 
 def findCipher (n : String) : Option CipherModel := allCiphers.find? (fun c => c.name == n)
 def findSpecial (n : String) : Option (List String → String) :=
